@@ -1045,11 +1045,11 @@ func (r *atRun) checkC01(o *episodeObs, faultFree bool) {
 
 // epFeatures names the statement features of an episode that known findings are keyed on.
 func epFeatures(ep *ATEpisode) string {
-	if ep.otherRow {
-		return "-upsert-uniq-other-row"
-	}
 	if ep.blindRow {
 		return "-upsert-unidentified-new-row"
+	}
+	if ep.otherRow {
+		return "-upsert-uniq-other-row"
 	}
 	for _, br := range ep.Branches {
 		for _, st := range br.Stmts {
